@@ -1025,6 +1025,11 @@ class SymX:
             while src[0] == "call" and src[1] in (("builtin", "list"), ("builtin", "tuple"), ("builtin", "iter")) and len(src[2]) == 1:
                 src = src[2][0]
         if src[0] == "yields":
+            # the loop variable is one of the yielded values, under the condition of its yield
+            if src[1]:
+                g = simplify(f_or([g_ for g_, _v in src[1]]))
+                if g != TRUE:
+                    st.pc = st.pc + (g,)
             self._assign(target, phi(list(src[1])) if src[1] else ("unk", "nothing yielded", 0), st, None)
             return
         single = src[3] if src[0] == "box" and self._never_mutated(src) else src
